@@ -2,13 +2,16 @@
 import contextlib
 import hashlib
 import io
+import json
+import os
 import struct
+import tempfile
 from io import BytesIO
 
 from buidl import tx as btx
 from buidl.helper import encode_varint, encode_varstr, read_varint, read_varstr
 from buidl.script import (P2PKHScriptPubKey, P2SHScriptPubKey, P2TRScriptPubKey, P2WPKHScriptPubKey,
-                          P2WSHScriptPubKey, Script, ScriptPubKey)
+                          P2WSHScriptPubKey, RedeemScript, Script, ScriptPubKey, WitnessScript)
 from buidl.timelock import Locktime, Sequence
 from buidl.tx import Tx, TxFetcher, TxIn, TxOut
 from buidl.witness import Witness
@@ -893,11 +896,18 @@ def p_script_api(a, b, pre):
         sc = Script.parse_hex(raw.hex())
         if sc.commands != canon_cmds(a) or sc.raw is not None or sc.raw_serialize() != raw:
             return "Script.parse_hex(hex of a canonical script) differs"
-        both = Script(list(a)) + Script(list(b))
+        sa, sb = Script(list(a)), Script(list(b))
+        both = sa + sb
         if both.raw_serialize() != ref_cmds(a + b) or both.serialize() != ref_script([a + b]):
             return "Script(a) + Script(b) does not serialise as the concatenated commands"
-        if Script(list(a)).raw_serialize() != raw:
+        # the operands are observed AFTER the sum was produced, and again after the sum was edited in place
+        if sa.commands != a or sb.commands != b or sa.raw_serialize() != raw or sb.raw_serialize() != ref_cmds(b):
             return "Script + Script changed an operand"
+        both.commands.append(0x51)
+        if sa.commands != a or sb.commands != b or both.commands is sa.commands or both.commands is sb.commands:
+            return "the result of Script + Script shares its command list with an operand"
+        if (sa + sb).raw_serialize() != ref_cmds(a + b) or (sb + sa).raw_serialize() != ref_cmds(b + a):
+            return "a second Script + Script of the same operands differs"
         # the library's notion of "same script": a parsed script equals the one that was serialised, and only that
         if not (sc == Script(canon_cmds(a))) or not (Script.parse(_at(pre, ref_script([a]), b"\x51")) == sc):
             return "a script parsed from its canonical encoding does not compare equal (==) to the original"
@@ -1036,10 +1046,514 @@ def p_fetch_cross_network(resp, idb, net1, net2):
         TxFetcher.cache.clear()
 
 
+# ---------------------------------------------------------------- audit (round 3 blind spots): other entry points,
+# defaults edited in place, per-element attributes, state shared between a result and its source, failure + retry
+
+
+def _h256(b):
+    return hashlib.sha256(hashlib.sha256(b).digest()).digest()
+
+
+def _copy_v(v):
+    ver, ins, outs, lt, sw = v
+    return [ver, [[i[0], i[1], [list(i[2][0]), []], i[3], list(i[4])] for i in ins],
+            [[o[0], [list(o[1][0]), []]] for o in outs], lt, sw]
+
+
+def p_defaults_isolated(pt1, pt2, push, item):
+    """default-constructed parts (TxIn() script_sig / witness, Script(), Witness(), parsed empty ones) are private
+    to their owner: editing one in place is serialised by its owner and by nobody else"""
+    with contextlib.redirect_stdout(io.StringIO()):
+        a = TxIn(pt1, 0)
+        b = TxIn(pt2, 1)
+        first = a.serialize()
+        a.script_sig.commands.append(push)
+        a.witness.items.append(item)
+        c = TxIn(pt2, 2)
+        va = [pt1, 0, [[push], []], 0xffffffff, [item]]
+        vb = [pt2, 1, [[], []], 0xffffffff, []]
+        vc = [pt2, 2, [[], []], 0xffffffff, []]
+        if first != ref_txin([pt1, 0, [[], []], 0xffffffff, []]):
+            return "TxIn(prev_tx, prev_index) does not serialise with an empty scriptSig and sequence 0xffffffff"
+        if a.serialize() != ref_txin(va):
+            return "an in-place edit of the default scriptSig of a TxIn is not serialised"
+        if b.serialize() != ref_txin(vb) or c.serialize() != ref_txin(vc) or b.script_sig.commands or c.script_sig.commands:
+            return "the default scriptSig of one TxIn is shared with another TxIn"
+        if list(b.witness.items) or list(c.witness.items) or list(a.witness.items) != [item]:
+            return "the default witness of one TxIn is shared with another TxIn"
+        v = [2, [va, vb, vc], [], 0, 1]
+        t = Tx(2, [a, b, c], [], segwit=True)
+        if t.serialize() != ref_full(v) or t.id() != ref_txid(v) or t.serialize_legacy() != ref_legacy(v):
+            return "a transaction of default-constructed inputs, one of them edited in place, is not serialised field for field"
+        s1 = Script()
+        s1.commands.append(push)
+        if Script().commands != [] or Script(None).commands != [] or Script().serialize() != b"\x00" or s1.serialize() != ref_script([[push]]):
+            return "Script() objects share their command list"
+        w1 = Witness()
+        w1.items.append(item)
+        if Witness().items != [] or Witness(None).items != [] or Witness().serialize() != b"\x00" or w1.serialize() != ref_witness([item]):
+            return "Witness() objects share their item list"
+        p1 = Script.parse(raw=b"")
+        p1.commands.append(push)
+        p2 = Script.parse(BytesIO(b"\x00"))
+        p2.commands.append(0x51)
+        if Script.parse(raw=b"").commands != [] or Script.parse(BytesIO(b"\x00")).commands != [] or Script().commands != []:
+            return "parsed empty scripts share their command list"
+        q1 = Witness.parse(BytesIO(b"\x00"))
+        q1.items.append(item)
+        if Witness.parse(BytesIO(b"\x00")).items != [] or Witness().items != []:
+            return "parsed empty witnesses share their item list"
+        e1 = Tx.parse(BytesIO(ref_full([2, [], [], 0, 1])))
+        e1.tx_ins.append(a)
+        e1.tx_outs.append(TxOut(1, Script([0x51])))
+        e2 = Tx.parse(BytesIO(ref_full([2, [], [], 0, 1])))
+        if e2.tx_ins != [] or e2.tx_outs != [] or e2.serialize() != ref_full([2, [], [], 0, 1]):
+            return "parsed transactions without inputs/outputs share their lists"
+        if e1.serialize() != ref_full([2, [va], [[1, [[0x51], []]]], 0, 1]):
+            return "inputs/outputs appended to a parsed empty transaction are not serialised"
+        # a second in-place edit of `a`, after everything above was serialised once
+        a.script_sig.commands.append(0xac)
+        a.witness.items.insert(0, b"")
+        va2 = [pt1, 0, [[push, 0xac], []], 0xffffffff, [b"", item]]
+        v2 = [2, [va2, vb, vc], [], 0, 1]
+        if t.serialize() != ref_full(v2) or t.id() != ref_txid(v2) or b.serialize() != ref_txin(vb):
+            return "a second in-place edit of a default-constructed input is not reflected / leaks to another input"
+    return None
+
+
+def p_finalize_forms(pt, idx, sigs, sec, cmds):
+    """the API that fills scriptSig / witness (TxIn.finalize_*): every signature in its own slot, in order, the
+    script raw-serialised as one push; checked on the wire against the reference encoder"""
+    sigs, cmds = list(sigs), list(cmds)
+    raw = ref_cmds(cmds)
+    s256 = hashlib.sha256(raw).digest()
+    out = [7, [[0x51], []]]
+
+    def chk(name, i, sc, wit):
+        want = [pt, idx, [sc, []], 0xffffffff, wit]
+        if i.serialize() != ref_txin(want):
+            return f"{name}: scriptSig on the wire differs from the reference"
+        if list(i.witness.items) != wit:
+            return f"{name}: witness items differ"
+        v = [2, [want], [out], 0, 1]
+        t = Tx(2, [i], [mk_txout(out)], segwit=True)
+        if t.serialize() != ref_full(v) or t.id() != ref_txid(v):
+            return f"{name}: transaction bytes / id differ from the reference"
+        back = Tx.parse(BytesIO(ref_full(v)))
+        if un_tx(back) != canon_tx(v):
+            return f"{name}: the finalised input does not parse back to its fields"
+        return None
+
+    with contextlib.redirect_stdout(io.StringIO()):
+        steps = []
+        i = TxIn(pt, idx)
+        i.finalize_p2pkh(sigs[0], sec)
+        steps.append(("finalize_p2pkh", i, [sigs[0], sec], []))
+        i = TxIn(pt, idx, Script([b"stale", 0x51]))
+        i.finalize_p2wpkh(sigs[0], sec)
+        steps.append(("finalize_p2wpkh", i, [], [sigs[0], sec]))
+        i = TxIn(pt, idx)
+        i.finalize_p2wpkh(sigs[-1], sec, RedeemScript(list(cmds)))
+        steps.append(("finalize_p2wpkh(redeem_script)", i, [raw], [sigs[-1], sec]))
+        i = TxIn(pt, idx)
+        i.finalize_p2sh_multisig(list(sigs), RedeemScript(list(cmds)))
+        steps.append(("finalize_p2sh_multisig", i, [0] + sigs + [raw], []))
+        i = TxIn(pt, idx)
+        i.finalize_p2wsh_multisig(list(sigs), WitnessScript(list(cmds)))
+        steps.append(("finalize_p2wsh_multisig", i, [], [b""] + sigs + [raw]))
+        i = TxIn(pt, idx)
+        i.finalize_p2sh_p2wsh_multisig(list(sigs), WitnessScript(list(cmds)))
+        steps.append(("finalize_p2sh_p2wsh_multisig", i, [b"\x00\x20" + s256], [b""] + sigs + [raw]))
+        i = TxIn(pt, idx)
+        i.finalize_p2tr_keypath(sigs[0])
+        steps.append(("finalize_p2tr_keypath", i, [], [sigs[0]]))
+        # re-finalising the same input replaces, never accumulates
+        i = TxIn(pt, idx)
+        i.finalize_p2wsh_multisig(list(sigs), WitnessScript(list(cmds)))
+        i.finalize_p2wpkh(sigs[0], sec)
+        i.finalize_p2tr_keypath(sigs[-1])
+        steps.append(("finalize twice", i, [], [sigs[-1]]))
+        for name, i, sc, wit in steps:
+            r = chk(name, i, sc, wit)
+            if r:
+                return r
+    return None
+
+
+def p_inplace_deep(v, push, item, net):
+    """serialize()/id() are functions of the CURRENT contents down to script commands and witness items: after a
+    first serialisation, commands / items / objects are edited in place step by step and compared with the
+    reference encoder each time; a clone taken before the edits keeps the old contents (and the network label)"""
+    if not (wf(v) and v[1] and v[2]):
+        return None
+    network = net.decode("latin-1")
+    with contextlib.redirect_stdout(io.StringIO()):
+        for built in (0, 1):
+            cur = _copy_v(canon_tx(v) if built else v)
+            ver, ins, outs, lt, sw = cur
+            if built:
+                t = Tx.parse(BytesIO(ref_full(v)), network=network)
+            else:
+                t = Tx(ver, [mk_txin(i) for i in ins], [mk_txout(o) for o in outs], lt, network, bool(sw))
+            how = "parsed" if built else "API-built"
+            if t.network != network:
+                return f"{how} transaction does not carry the network it was given"
+            snap = _copy_v(canon_tx(cur))
+            if t.serialize() != ref_full(cur) or t.id() != ref_txid(cur):
+                return None     # reported by tx_rt / bytes_rt
+            repr(t)
+            for x in t.tx_ins:
+                x.serialize(), x.script_sig.serialize(), x.script_sig.raw_serialize(), x.witness.serialize()
+            for x in t.tx_outs:
+                x.serialize(), x.script_pubkey.serialize()
+            c = t.clone()
+
+            def bad(step):
+                if t.serialize() != ref_full(cur) or t.serialize_legacy() != ref_legacy(cur):
+                    return f"{how} transaction: serialize() after {step} does not reflect the current contents"
+                if t.id() != ref_txid(cur) or t.hash() != bytes.fromhex(ref_txid(cur)):
+                    return f"{how} transaction: id()/hash() after {step} is not the txid of the current contents"
+                return None
+
+            before = ref_txid(cur)
+            ins[-1][2][0].append(push)
+            t.tx_ins[-1].script_sig.commands.append(push)
+            r = bad("appending a push to a scriptSig in place")
+            if r or ref_txid(cur) == before:
+                return r or "reference error"
+            before = ref_txid(cur)
+            ins[0][4].append(item)
+            t.tx_ins[0].witness.items.append(item)
+            r = bad("appending a witness item in place")
+            if r or t.id() != before:
+                return r or "txid changed by a witness edit"
+            outs[-1][1][0].append(0xac)
+            t.tx_outs[-1].script_pubkey.commands.append(0xac)
+            r = bad("appending an opcode to a scriptPubKey in place")
+            if r:
+                return r
+            outs[0][1][0][:] = [0x6a, push]
+            t.tx_outs[0].script_pubkey.commands[:] = [0x6a, push]
+            r = bad("replacing the commands of a scriptPubKey in place")
+            if r:
+                return r
+            ins[0][2][0][:] = [item + b"\x01"]
+            t.tx_ins[0].script_sig = Script([item + b"\x01"])
+            ins[0][4][:] = [item, b""]
+            t.tx_ins[0].witness = Witness([item, b""])
+            r = bad("assigning a new scriptSig and witness")
+            if r:
+                return r
+            ins.append([bytes(32), 0xffffffff, [[], []], 0xffffffff, []])
+            t.tx_ins.append(TxIn(bytes(32), 0xffffffff))
+            outs.pop()
+            t.tx_outs.pop()
+            r = bad("appending an input and removing an output")
+            if r:
+                return r
+            cur[4] = 1 - cur[4]
+            t.segwit = not t.segwit
+            r = bad("flipping the segwit flag")
+            if r:
+                return r
+            # the clone was taken before the edits of its SOURCE
+            if un_tx(c) != snap or c.serialize() != ref_full(snap) or c.id() != ref_txid(snap):
+                return f"{how} transaction: editing the source after clone() changed the clone"
+            if c.network != network:
+                return "clone() does not keep the network of its source"
+    return None
+
+
+def p_entry_points(v, net):
+    """the less travelled doors into the same codec, with a non-default network: Tx.parse / parse_hex /
+    parse_legacy / parse_segwit (positional, keyword), the conversion helpers of the script subclasses"""
+    if not (wf(v) and (v[4] or v[1])):
+        return None
+    network = net.decode("latin-1")
+    raw = ref_full(v)
+    want = canon_tx(v)
+    direct = Tx.parse_segwit if v[4] else Tx.parse_legacy
+    with contextlib.redirect_stdout(io.StringIO()):
+        forms = [("Tx.parse(s, network)", lambda: Tx.parse(BytesIO(raw), network)),
+                 ("Tx.parse(s=, network=)", lambda: Tx.parse(s=BytesIO(raw), network=network)),
+                 ("Tx.parse_hex(s, network)", lambda: Tx.parse_hex(raw.hex(), network)),
+                 ("Tx.parse_hex(s=, network=)", lambda: Tx.parse_hex(s=raw.hex().upper(), network=network)),
+                 ("direct parser", lambda: direct(BytesIO(raw), network)),
+                 ("direct parser(network=)", lambda: direct(s=BytesIO(raw), network=network))]
+        for name, f in forms:
+            try:
+                t = f()
+            except Exception as e:
+                return f"{name} raised {type(e).__name__} on a canonical encoding"
+            if un_tx(t) != want or t.serialize() != raw or t.id() != ref_txid(v):
+                return f"{name} returns different fields than the encoded ones"
+            if t.network != network:
+                return f"{name} does not label the transaction with the given network"
+        for name, f in (("Tx.parse(s)", lambda: Tx.parse(BytesIO(raw))), ("Tx.parse_hex(s)", lambda: Tx.parse_hex(raw.hex())),
+                        ("direct parser(s)", lambda: direct(BytesIO(raw)))):
+            t = f()
+            if t.network != "mainnet" or un_tx(t) != want:
+                return f"{name} without a network is not a mainnet transaction with the encoded fields"
+        for i in v[1]:
+            cmds = list(i[2][0])
+            rs = ref_cmds(cmds)
+            for cls in (RedeemScript, WitnessScript):
+                sc = cls.convert(rs)
+                if type(sc) is not cls or sc.commands != canon_cmds(cmds) or sc.raw is not None or sc.raw_serialize() != rs:
+                    return f"{cls.__name__}.convert(raw) is not the script that serialises to raw"
+                sc = cls.parse(BytesIO(ref_script([cmds]) + b"\x51"))
+                if type(sc) is not cls or sc.commands != canon_cmds(cmds) or sc.serialize() != ref_script([cmds]):
+                    return f"{cls.__name__}.parse(stream) differs from the encoded script"
+                if cls(list(cmds)).serialize() != ref_script([cmds]):
+                    return f"{cls.__name__}(commands).serialize() differs from the reference"
+    return None
+
+
+def _cache_ok():
+    for k, tx in TxFetcher.cache.items():
+        if _h256(tx.serialize_legacy())[::-1].hex() != k:
+            return f"the cache holds under {str(k)[:16]}.. a transaction that does not hash to that id"
+    return None
+
+
+def p_fetch_history(ops):
+    """any history of fetches (fresh or not, honest / lying / broken server, any network name): whatever is handed
+    out hashes to the requested id, and after EVERY call - also one that raised - every cache entry hashes to its
+    key; an honest answer on a served network is accepted, also right after a refused one"""
+    TxFetcher.cache.clear()
+    try:
+        with contextlib.redirect_stdout(io.StringIO()):
+            for k, (fresh, resp, idb, net, must) in enumerate(ops):
+                tx_id, network = idb.decode("latin-1"), net.decode("latin-1")
+                had = TxFetcher.cache.get(tx_id)
+                with fake_net([resp]) as fn:
+                    try:
+                        t = TxFetcher.fetch(tx_id, network=network, fresh=bool(fresh))
+                    except Exception as e:
+                        t = None
+                        if must:
+                            return f"call #{k}: honest response rejected ({type(e).__name__})"
+                bad = _cache_ok()
+                if bad:
+                    return f"call #{k} ({'raised' if t is None else 'returned'}): {bad}"
+                if t is None:
+                    if had is not None and TxFetcher.cache.get(tx_id) is not had:
+                        return f"call #{k} raised and replaced / dropped the verified cache entry"
+                    continue
+                if _h256(t.serialize_legacy())[::-1].hex() != tx_id or t.id() != tx_id:
+                    return f"call #{k} returned a transaction that does not hash to the requested id"
+                if had is not None and not fresh and (t is not had or fn.urls):
+                    return f"call #{k}: a cached id was not served from the cache"
+        return None
+    finally:
+        TxFetcher.cache.clear()
+
+
+def p_cache_file(entries, extra):
+    """the disk cache: dump_cache writes {id: hex of the full serialisation}; load_cache of that file serves every
+    id without a request, the same bytes, hashing to the id"""
+    entries = list(entries)
+    fd, path = tempfile.mkstemp(prefix="c04cache", suffix=".json")
+    os.close(fd)
+    TxFetcher.cache.clear()
+    try:
+        with contextlib.redirect_stdout(io.StringIO()):
+            for resp, idb in entries:
+                with fake_net([resp]):
+                    TxFetcher.fetch(idb.decode("latin-1"), fresh=True)
+            TxFetcher.dump_cache(path)
+            disk = json.loads(open(path).read())
+            want = {idb.decode("latin-1"): bytes.fromhex(resp.decode("latin-1")).hex() for resp, idb in entries}
+            if disk != want:
+                return "dump_cache does not write {txid: hex of the full serialisation}"
+            TxFetcher.cache.clear()
+            if len(extra):       # an entry fetched before loading stays, and is the one served
+                with fake_net([extra[0][0]]):
+                    TxFetcher.fetch(extra[0][1].decode("latin-1"))
+            TxFetcher.load_cache(path)
+            for resp, idb in entries + [list(e) for e in extra]:
+                tx_id = idb.decode("latin-1")
+                with fake_net([b"00"]) as fn:
+                    t = TxFetcher.fetch(tx_id, network="testnet")
+                if fn.urls:
+                    return "an id loaded from the disk cache caused a request"
+                if t.serialize() != bytes.fromhex(resp.decode("latin-1")):
+                    return "a transaction loaded from the disk cache does not serialise to the dumped bytes"
+                if _h256(t.serialize_legacy())[::-1].hex() != tx_id or t.id() != tx_id:
+                    return "a transaction loaded from the disk cache does not hash to its id"
+            return _cache_ok()
+    finally:
+        TxFetcher.cache.clear()
+        os.unlink(path)
+
+
+class fake_net_map:
+    """replaces buidl.tx.urlopen by a stub that answers by requested id (last path element before /hex)"""
+
+    def __init__(self, table):
+        self.table = dict(table)
+        self.urls = []
+
+    def __enter__(self):
+        self.old = btx.urlopen
+        btx.urlopen = self._open
+        return self
+
+    def __exit__(self, *a):
+        btx.urlopen = self.old
+
+    def _open(self, req, *a, **k):
+        self.urls.append(req.full_url)
+        return _Resp(self.table[req.full_url.split("/")[-2]])
+
+
+def p_prevouts(prevs, spends, net, lie):
+    """the consumers of the fetcher on a transaction whose inputs spend DIFFERENT outputs of different previous
+    transactions: TxIn.value / script_pubkey / fetch_tx, Tx.fee, Tx.get_input_tx_lookup give, per input, the
+    amount and script of exactly that outpoint, ask the endpoint of the transaction's network, once per previous
+    transaction; with a lying server for one of them nothing is handed out, and the honest retry works"""
+    prevs, spends = list(prevs), list(spends)
+    network = net.decode("latin-1")
+    ids = [ref_txid(p) for p in prevs]
+    honest = {ids[k]: ref_full(p).hex().encode() for k, p in enumerate(prevs)}
+    amounts = [prevs[k][2][j][0] for k, j in spends]
+    scripts = [canon_cmds(prevs[k][2][j][1][0]) for k, j in spends]
+
+    def spender():
+        return Tx(2, [TxIn(bytes.fromhex(ids[k]), j) for k, j in spends], [TxOut(1, Script([0x51]))], 0, network, True)
+
+    TxFetcher.cache.clear()
+    try:
+        with contextlib.redirect_stdout(io.StringIO()):
+            if lie:
+                k0, other = lie[0]
+                table = dict(honest)
+                table[ids[k0]] = other
+                t = spender()
+                for name, f in (("fee()", t.fee), ("get_input_tx_lookup()", t.get_input_tx_lookup)):
+                    with fake_net_map(table):
+                        try:
+                            f()
+                        except Exception:
+                            pass
+                        else:
+                            return f"{name} returned although the server answered another transaction for a prevout"
+                    bad = _cache_ok()
+                    if bad:
+                        return f"after a refused prevout: {bad}"
+                for n, (k, j) in enumerate(spends):
+                    if k != k0:
+                        continue
+                    with fake_net_map(table):
+                        for name, f in (("value()", t.tx_ins[n].value), ("script_pubkey()", t.tx_ins[n].script_pubkey),
+                                        ("fetch_tx()", t.tx_ins[n].fetch_tx)):
+                            try:
+                                f(network)
+                            except Exception:
+                                continue
+                            return f"TxIn.{name} returned although the server answered another transaction"
+                # the same object is used again with an honest server below
+            else:
+                t = spender()
+            with fake_net_map(honest) as fn:
+                fee = t.fee()
+                if fee != sum(amounts) - 1:
+                    return "fee() is not the sum of the spent outputs' amounts minus the outputs"
+                for n, x in enumerate(t.tx_ins):
+                    if x.value(network) != amounts[n]:
+                        return f"input #{n}: value() is not the amount of the outpoint it spends"
+                    sp = x.script_pubkey(network)
+                    if sp.commands != scripts[n] or sp.serialize() != ref_script([scripts[n]]):
+                        return f"input #{n}: script_pubkey() is not the script of the outpoint it spends"
+                    if _h256(x.fetch_tx(network).serialize_legacy())[::-1] != x.prev_tx:
+                        return f"input #{n}: fetch_tx() does not hash to prev_tx"
+                look = t.get_input_tx_lookup()
+                if set(look) != {bytes.fromhex(ids[k]) for k, _ in spends}:
+                    return "get_input_tx_lookup() keys are not the spent transaction hashes"
+                for h, p in look.items():
+                    if _h256(p.serialize_legacy())[::-1] != h or p.serialize() != bytes.fromhex(honest[h.hex()].decode()):
+                        return "get_input_tx_lookup() maps a hash to another transaction"
+                if not lie and sorted(u.split("/")[-2] for u in fn.urls) != sorted({ids[k] for k, _ in spends}):
+                    return "a previous transaction was requested more than once / not at all"
+                for u in fn.urls:
+                    if (network != "mainnet") != (("/" + network + "/") in u):
+                        return "a prevout was requested from the endpoint of another network"
+            return _cache_ok()
+    finally:
+        TxFetcher.cache.clear()
+
+
+def ref_varint_w(n, w):
+    """compact size of n in the given total width 1/3/5/9 (non-minimal when wider than needed)"""
+    if w == 1:
+        return struct.pack("<B", n)
+    return {3: b"\xfd", 5: b"\xfe", 9: b"\xff"}[w] + n.to_bytes(w - 1, "little")
+
+
+def ref_full_w(v, where, w):
+    """ref_full(v) with ONE compact size written in width w: where = in_count | out_count | sig_len | spk_len |
+    wit_count | wit_len (the first such field)"""
+    ver, ins, outs, lt, sw = v
+
+    def vi(n, tag, first):
+        return ref_varint_w(n, w) if (tag == where and first) else ref_varint(n)
+
+    def script(sc, tag, first):
+        b = ref_cmds(sc[0])
+        return vi(len(b), tag, first) + b
+
+    out = struct.pack("<I", ver) + (b"\x00\x01" if sw else b"") + vi(len(ins), "in_count", True)
+    for k, (pt, pi, sc, sq, _w) in enumerate(ins):
+        out += pt[::-1] + struct.pack("<I", pi) + script(sc, "sig_len", k == 0) + struct.pack("<I", sq)
+    out += vi(len(outs), "out_count", True)
+    for k, (am, sc) in enumerate(outs):
+        out += struct.pack("<Q", am) + script(sc, "spk_len", k == 0)
+    if sw:
+        for k, i in enumerate(ins):
+            out += vi(len(i[4]), "wit_count", k == 0)
+            for m, x in enumerate(i[4]):
+                out += vi(len(x), "wit_len", k == 0 and m == 0) + x
+    return out + struct.pack("<I", lt)
+
+
+def p_nonminimal(v, where, w):
+    """a transaction with one NON-minimal compact size (hand-built): whatever the parser makes of it, the object
+    re-serialises canonically, so its id is the id of the canonical form - never the hash of the bytes received;
+    the fetcher accepts it under the canonical id only"""
+    raw = ref_full_w(v, where.decode(), w)
+    canon = ref_full(v)
+    tid = ref_txid(v)
+    with contextlib.redirect_stdout(io.StringIO()):
+        try:
+            t = Tx.parse(BytesIO(raw + b"\x51"))
+        except Exception:
+            t = None
+        if t is not None:
+            if un_tx(t) != canon_tx(v):
+                return "a non-minimal compact size is parsed into different fields than the encoded ones"
+            if t.serialize() != canon or t.id() != tid:
+                return "a transaction parsed from a non-minimal encoding does not re-serialise canonically"
+    if t is None:
+        return None
+    r = p_fetch(raw.hex().encode(), tid.encode(), 1)
+    if r:
+        return "non-minimal response, canonical id: " + r
+    stripped = ref_full_w([v[0], v[1], v[2], v[3], 0], where.decode(), w) if where not in (b"wit_count", b"wit_len") else None
+    if stripped is not None and raw != canon:
+        fake = _h256(stripped)[::-1].hex()
+        r = p_fetch(raw.hex().encode(), fake.encode(), 0)
+        if r:
+            return "non-minimal response, id = hash of the bytes received: " + r
+    return None
+
+
 PROPS = {"script_canon": p_script_canon, "fetch_cross_network": p_fetch_cross_network, "script_rt": p_script_rt, "raw_fallback": p_raw_fallback, "witness_rt": p_witness_rt, "tx_rt": p_tx_rt, "zero_inputs": p_zero_inputs,
          "bytes_rt": p_bytes_rt, "txid": p_txid, "txid_inplace": p_txid_inplace, "fetch": p_fetch,
          "mid_stream": p_mid_stream, "tx_sequence": p_tx_sequence, "varint": p_varint, "varint_decode": p_varint_decode,
-         "varstr": p_varstr, "api_forms": p_api_forms, "script_api": p_script_api, "fetch_network": p_fetch_network}
+         "varstr": p_varstr, "api_forms": p_api_forms, "script_api": p_script_api, "fetch_network": p_fetch_network,
+         "defaults_isolated": p_defaults_isolated, "finalize_forms": p_finalize_forms, "inplace_deep": p_inplace_deep,
+         "entry_points": p_entry_points, "fetch_history": p_fetch_history, "cache_file": p_cache_file,
+         "prevouts": p_prevouts, "nonminimal": p_nonminimal}
 
 
 def classify(v):
@@ -1826,3 +2340,126 @@ def generate(ctx):
         resp = hexresp(ref_full(v)) + r.choice([b"", b"\n"]) if k % 7 else r.choice([hexresp(ref_full(w)), b"zz", b""])
         ctx.label("fetch/prevout-value-script")
         yield ("corr", "txin_prevout", [i, r.choice(nets[:3]) if k % 9 else r.choice(nets), resp])
+
+    # ------------------------------------------------------------ audit round 3: the less travelled doors
+    # (alternative entry points, defaults edited in place, per-element attributes, sharing between a result and its
+    #  source, failure followed by a retry, hand-built encodings of special byte classes / non-minimal compact sizes)
+    pool = [s for s in good if s[2]]
+    for k in range(ctx.n(60, 800)):
+        push = ctx.rbytes(r.choice([0, 1, 20, 75, 76, 255, 256, 520, r.randrange(1, 90)]))
+        item = ctx.rbytes(r.choice([0, 1, 64, 72, 253, r.randrange(1, 80)]))
+        ctx.label("audit/defaults-edited-in-place")
+        yield ("prop", "defaults_isolated", [ctx.rbytes(32), ctx.rbytes(32), push, item])
+        v = pool[(k * 3 + 1) % len(pool)] if k % 3 else r_tx(ctx, r, r.choice([1, 2, 3]), r.choice([1, 2, 3]))
+        net = r.choice(NETWORKS) if k % 4 else r.choice([b"regtest", b"mainnet"])
+        ctx.label("audit/deep-in-place-edit+clone-source")
+        yield ("prop", "inplace_deep", [v, push, item, net])
+        ctx.label("audit/entry-points-with-network")
+        yield ("prop", "entry_points", [pool[(k * 7 + 2) % len(pool)] if k % 2 else r_tx(ctx, r, r.choice([1, 2]), None, k % 4 // 2), net])
+        # finalize_*: signatures that DIFFER from each other (lengths 0, 1, 64..73), a script of at most 520 bytes
+        sigs = [ctx.rbytes(n) for n in r.sample([0, 1, 64, 65, 70, 71, 72, 73], r.randrange(1, 5))]
+        cmds = [c for c in r_cmds(ctx, r, r.randrange(0, 5)) if isinstance(c, int) or len(c) <= 100]
+        ctx.label("audit/finalize")
+        yield ("prop", "finalize_forms", [ctx.rbytes(32), r_u32(r), sigs, ctx.rbytes(r.choice([33, 65])), cmds])
+    yield ("prop", "finalize_forms", [bytes(32), 0, [b""], b"", []])
+    yield ("prop", "finalize_forms", [b"\xff" * 32, 0xffffffff, [ctx.rbytes(72), ctx.rbytes(71), ctx.rbytes(72)], ctx.rbytes(33),
+                                      [0x52, ctx.rbytes(33), ctx.rbytes(33), ctx.rbytes(33), 0x53, 0xae]])
+    # fetcher histories with a verdict after every call; failure -> retry; a refused fresh re-fetch of a cached id
+    for k in range(ctx.n(120, 1500)):
+        v = good[k % len(good)]
+        w = good[(k * 19 + 7) % len(good)]
+        if ref_txid(v) == ref_txid(w):
+            continue
+        hv, hw, iv, iw = hexresp(ref_full(v)), hexresp(ref_full(w)), ref_txid(v).encode(), ref_txid(w).encode()
+        net = r.choice(NETWORKS)
+        fixed = [[[1, hw, iv, net, 0], [0, hv, iv, net, 1], [0, b"zz", iv, net, 0]],              # lie, honest retry, hit
+                 [[0, hv, iv, net, 1], [1, hw, iv, net, 0], [0, b"00", iv, net, 0], [1, hv, iv, net, 1]],   # good entry, refused re-fetch
+                 [[0, hw, iv, net, 0], [0, hw, iv, net, 0], [0, hw, iw, net, 1], [0, hv, iv, b"regtest", 0], [0, hv, iv, net, 1]],
+                 [[1, hv[:-2], iv, net, 0], [0, hv + b"\n", iv, net, 1], [1, b"", iv, net, 0], [0, b"", iv, b"", 0]]]
+        ops = fixed[k % 4] if k % 2 else []
+        for _ in range(r.randrange(2, 7)):
+            a = r.choice([v, w])
+            b = r.choice([v, w, v, w, None])
+            nt = r.choice(NETWORKS) if r.random() < 0.8 else r.choice([b"regtest", b""])
+            resp = b"zz" if b is None else hexresp(ref_full(b))
+            ops.append([r.randrange(2), resp, ref_txid(a).encode(), nt, 1 if (b is a and nt in NETWORKS) else 0])
+        ctx.label("audit/fetch-history-verdict-per-call")
+        yield ("prop", "fetch_history", [ops])
+        if k % 6 == 0:
+            ctx.label("audit/disk-cache")
+            yield ("prop", "cache_file", [[[hv, iv], [hw, iw]][: 1 + k % 2], [[hw, iw]] if k % 4 == 0 else []])
+    yield ("prop", "cache_file", [[], []])
+    # prevout consumers: inputs that spend different outputs (different amounts / scripts) of different transactions
+    multi = [s for s in good if len(s[2]) >= 2] or pool
+    for k in range(ctx.n(60, 800)):
+        prevs = [multi[(k * 5 + j * 11) % len(multi)] for j in range(r.choice([1, 2, 3]))]
+        if len({ref_txid(p) for p in prevs}) != len(prevs):
+            continue
+        spends = [[j, m] for j, p in enumerate(prevs) for m in range(len(p[2])) if r.random() < 0.7] or [[0, 0]]
+        r.shuffle(spends)
+        lie = []
+        if k % 3 == 0:
+            k0 = spends[r.randrange(len(spends))][0]
+            other = _copy_v(prevs[k0])
+            other[2][r.randrange(len(other[2]))][0] ^= 1 << r.randrange(40)
+            lie = [[k0, hexresp(ref_full(r.choice([other, multi[(k * 5 + 3) % len(multi)]])))]]
+            if bytes.fromhex(lie[0][1].decode()) == ref_full(prevs[k0]):
+                lie = []
+        ctx.label("audit/prevouts-per-input" + ("/lying-server+retry" if lie else ""))
+        yield ("prop", "prevouts", [prevs, spends, r.choice(NETWORKS), lie])
+    # hand-built encodings: ONE non-minimal compact size per transaction, every field kind x every wider width
+    nm = [[1, [small_in(ctx, r, 0)], [[5, [[0x51], []]]], 0, 0],
+          [2, [[ctx.rbytes(32), 1, [[ctx.rbytes(20)], []], 0xfffffffe, [ctx.rbytes(3), b""]], small_in(ctx, r, 1, [b"\x07"])],
+           [[9, [[0, bytes(20)], []]], [8, [[0x6a, ctx.rbytes(80)], []]]], 17, 1],
+          [1, [], [[5, [[0x51], []]]], 0, 0],          # zero inputs, legacy: fd 00 00 is NOT read as the segwit marker
+          [1, [], [], 0, 1]]
+    for v in nm:
+        for where in (b"in_count", b"out_count", b"sig_len", b"spk_len", b"wit_count", b"wit_len"):
+            if (where in (b"wit_count", b"wit_len") and not (v[4] and v[1])) or (where == b"sig_len" and not v[1]) \
+                    or (where == b"spk_len" and not v[2]) or (where == b"wit_len" and not v[1][0][4]):
+                continue
+            for w in (3, 5, 9):
+                ctx.label("audit/non-minimal-compact-size/" + where.decode())
+                yield ("prop", "nonminimal", [v, where, w])
+                yield ("corr", "tx_parse", [ref_full_w(v, where.decode(), w) + ctx.rbytes(w % 3)])
+                yield ("corr", "fetch_text", [hexresp(ref_full_w(v, where.decode(), w)), ref_txid(v).encode()])
+    # special byte classes: all-zero / all-ff fields, coinbase outpoint, hex text without letters / without digits
+    AC = [0xac] * 170
+    special = [[1, [[bytes(32), 0xffffffff, [[b"\x03\x01\x02\x03"], []], 0xffffffff, [bytes(32)]]], [[50 * 10 ** 8, [[0x51], []]]], 0, 1],
+               [1, [[bytes(32), 0xffffffff, [[b"\x03\x01\x02\x03"], []], 0xffffffff, []]], [[50 * 10 ** 8, [[0x51], []]]], 0, 0],
+               [0xffffffff, [[b"\xff" * 32, 0xffffffff, [[0xff] * 5, []], 0xffffffff, [b"\xff" * 40]]], [[U64 - 1, [[0xff, b"\xff" * 75], []]]], 0xffffffff, 1],
+               [0xffffffff, [[b"\xff" * 32, 0xffffffff, [[0xff] * 5, []], 0xffffffff, []]] * 2, [[U64 - 1, [[0xff, b"\xff" * 76], []]]] * 2, 0xffffffff, 0],
+               [0, [[bytes(32), 0, [[0, 0, 0], []], 0, [b"", bytes(3)]]], [[0, [[0], []]]], 0, 1],
+               [0, [[bytes(32), 0, [[], []], 0, []]], [[0, [[], []]]], 0, 0],
+               [0, [[bytes(32), 0, [[bytes(75)], []], 0, []]], [[0, [[bytes(76)], []]], [0, [[bytes(256)], []]]], 0, 0],
+               # hex text made of digits only
+               [0x01020304, [[bytes([0x10 + j for j in range(10)] * 3 + [0x99, 0x98]), 0x90, [[b"\x11\x22"], []], 0x99999999, []]],
+                [[0x1000, [[0x51, 0x93], []]]], 0x70605040, 0],
+               # hex text made of letters only (170 inputs / outputs, every byte in aa..ff)
+               [0xaaaaaaaa, [[b"\xab\xcd\xef\xfe" * 8, 0xbbbbbbbb, [AC, []], 0xeeeeeeee, []]] * 170,
+                [[0xdddddddddddddddd, [AC, []]]] * 170, 0xffffffff, 0]]
+    for v in special:
+        hx = ref_full(v).hex().encode()
+        ctx.label("audit/special-byte-class")
+        yield from tx_cases(v, ctx, r)
+        yield ("prop", "api_forms", [v])
+        yield ("prop", "entry_points", [v, b"signet"])
+        yield ("prop", "mid_stream", [b"tx", ctx.rbytes(3), v, b"\x00"])
+        yield ("prop", "fetch", [hx, ref_txid(v).encode(), 1])
+        yield ("prop", "fetch", [hx.upper(), ref_txid(v).encode(), 1])
+        yield ("corr", "tx_parse_hex", [hx])
+        yield ("corr", "tx_parse_hex", [hx.upper()])
+        yield ("corr", "fetch_text", [hx.upper() + b"\n", ref_txid(v).encode()])
+        if len(hx) < 2000:
+            yield ("prop", "inplace_deep", [v, b"\x00", b"", b"testnet"])
+    assert special[-2] and not any(c in b"abcdef" for c in ref_full(special[-2]).hex().encode())
+    assert not any(c in b"0123456789" for c in ref_full(special[-1]).hex().encode())
+    # the requested id in another byte order / of the full (witness) serialisation is not the transaction's id
+    for k in range(ctx.n(40, 400)):
+        v = good[(k * 3) % len(good)]
+        raw = ref_full(v)
+        ctx.label("audit/fetch-id-forms")
+        yield ("prop", "fetch", [hexresp(raw), _h256(ref_legacy(v)).hex().encode(), 0])
+        yield ("corr", "fetch_text", [hexresp(raw), _h256(ref_legacy(v)).hex().encode()])
+        if v[4] and any(i[4] for i in v[1]):
+            yield ("prop", "fetch", [hexresp(raw), _h256(raw)[::-1].hex().encode(), 0])
